@@ -2,10 +2,28 @@ package privval
 
 import (
 	"os"
+	"runtime"
 	"testing"
 
 	"verif/sim/kernel"
 )
+
+// Child mode of the process-kill runs (prockill.go): the same test binary is
+// started under strace with VERIF_PV_CHILD=<script>. Locking in init keeps the
+// main goroutine on the main OS thread for the whole life of the process.
+func init() {
+	if os.Getenv(pkChildEnv) != "" {
+		runtime.LockOSThread()
+	}
+}
+
+func TestMain(m *testing.M) {
+	if script := os.Getenv(pkChildEnv); script != "" {
+		runtime.LockOSThread()
+		pkChildMain(script) // never returns
+	}
+	os.Exit(m.Run())
+}
 
 func TestSim(t *testing.T) {
 	if os.Getenv("VERIF_PROP") == "" {
